@@ -767,3 +767,72 @@ V('c03-benign-or-if-let', 'C03', 'silent', (ER, '''        match (self, other) {
             }
             (this @ Io(_), NoDefaultValue) => this,
         }'''))
+
+DI = 'src/dirs.rs'
+
+# ---- C11
+V('c11-no-dedup', 'C11', 'C11.R1', (DI, '''        ids.sort_unstable();
+        ids.dedup();''', '''        ids.sort_unstable();'''))
+V('c11-dedup-before-sort', 'C11', 'C11.R1', (DI, '''        ids.sort_unstable();
+        ids.dedup();''', '''        ids.dedup();
+        ids.sort_unstable();'''))
+V('c11-missing-dir-is-empty', 'C11', 'C11.R1', (DI, '''        let mut ids = T::select_ids(cache, id)?;''', '''        let mut ids = T::select_ids(cache, id).unwrap_or_default();'''))
+V('c11-any-extension', 'C11', 'C11.R2', (DI, '''                    if extensions.contains(&ext) {
+                        ids.push(id.into());
+                    }''', '''                    if extensions.contains(&ext) || ext.is_empty() {
+                        ids.push(id.into());
+                    }'''))
+V('c11-dirs-listed-as-files', 'C11', 'C11.R2', (DI, '''                if let DirEntry::File(id, ext) = entry {
+                    if extensions.contains(&ext) {
+                        ids.push(id.into());
+                    }
+                }''', '''                match entry {
+                    DirEntry::File(id, ext) if extensions.contains(&ext) => ids.push(id.into()),
+                    DirEntry::Directory(id) if extensions.contains(&"") => ids.push(id.into()),
+                    _ => (),
+                }'''))
+V('c11-failing-child-aborts', 'C11', 'C11.R3', (DI, '''        T::sub_directories(cache, id, |id| {
+            if let Ok(child) = cache.load::<RecursiveDirectory<T>>(id) {
+                ids.extend_from_slice(&child.read().ids);
+            }
+        })?;''', '''        let mut failed = false;
+        T::sub_directories(cache, id, |id| match cache.load::<RecursiveDirectory<T>>(id) {
+            Ok(child) => ids.extend_from_slice(&child.read().ids),
+            Err(_) => {
+                failed = true;
+                ids.clear();
+            }
+        })?;
+        let _ = failed;'''))
+V('c11-rec-loads-plain-dir-children', 'C11', 'C11.R3', (DI, '''            if let Ok(child) = cache.load::<RecursiveDirectory<T>>(id) {''', '''            if let Ok(child) = cache.load::<Directory<T>>(id) {'''))
+V('c11-iter-cached-loads', 'C11', 'C11.R4', (DI, '''impl<T> RecursiveDirectory<T>
+where
+    T: crate::Storable,
+{''', '''impl<T> RecursiveDirectory<T>
+where
+    T: Compound,
+{'''), (DI, '''        let cache = cache.as_any_cache();
+        self.ids().filter_map(move |id| cache.get_cached(id))
+    }
+}
+
+impl<T> RecursiveDirectory<T>
+where
+    T: Compound,
+{
+    /// Returns an iterator over the assets in the directory.''', '''        let cache = cache.as_any_cache();
+        self.ids().filter_map(move |id| cache.load(id).ok())
+    }
+}
+
+impl<T> RecursiveDirectory<T>
+where
+    T: Compound,
+{
+    /// Returns an iterator over the assets in the directory.'''))
+V('c11-subdirs-forward-files-too', 'C11', 'C11.R3', (DI, '''            if let DirEntry::Directory(id) = entry {
+                f(id);
+            }''', '''            match entry {
+                DirEntry::Directory(id) | DirEntry::File(id, "") => f(id),
+                _ => (),
+            }'''))
